@@ -40,14 +40,15 @@ def build(i):
     return vlib.build("explore_swap2.cpp", flags(i), "sw-" + name(i))
 
 
-ENG = e1.Eng("E1s", build, name, lambda i: {"TC4": "TC", "TR": "TR", "NTR": "NTR"}[i["elem"]], lambda i: i["a"] + "x" + i["b"])
+ENG = e1.Eng("E1s", build, name, lambda i: {"TC4": "TC", "TC300": "TC", "TR": "TR", "NTR": "NTR"}[i["elem"]], lambda i: i["a"] + "x" + i["b"])
 
 
 def run(ctx):
     q = ctx.tier == "quick"
     if q:
         pairs = [("sv3_8", "sv5_16", "TC4"), ("sv2", "sv2", "NTR"), ("sv2", "vec32", "TR"), ("vec8", "vec32", "TC4"), ("fcv3", "sv5_16", "NTR"),
-                 ("sv2", "fcv3", "TR"), ("vec32", "vecstd", "NTR"), ("fcv3", "fcv5", "TC4"), ("sv5_16", "vec8", "TR"), ("vec32", "fcv5", "NTR")]
+                 ("sv2", "fcv3", "TR"), ("vec32", "vecstd", "NTR"), ("fcv3", "fcv5", "TC4"), ("sv5_16", "vec8", "TR"), ("vec32", "fcv5", "NTR"),
+                 ("sv3_8", "fcv5", "TC300"), ("sv2", "sv5_16", "TC300")]  # 300-byte elements: element-wise exchange of wide objects
         m = [inst(a, b, el, L=4) for a, b, el in pairs]
         m.append(inst("vec8", "vec32", "TC4", L=2, big=[250, 255, 256, 300]))
         m.append(inst("sv3_8", "sv5_16", "TC4", L=2, big=[255, 256]))
@@ -60,6 +61,7 @@ def run(ctx):
             for b in names:
                 m.append(inst(a, b, elems[n % 3], L=6 if ("fcv" in a or "fcv" in b) else 5))
                 n += 1
+        m += [inst(a, b, "TC300", L=5) for a, b in (("sv3_8", "fcv5"), ("sv2", "sv5_16"), ("fcv3", "fcv5"), ("vec32", "sv2"), ("fcv5", "vec8"))]
         for a, b in (("vec8", "vec32"), ("vec32", "vec8"), ("sv3_8", "sv5_16"), ("sv3_8", "vec32"), ("vec8", "sv2"), ("vec8", "vec8")):
             m.append(inst(a, b, "TC4", L=2, big=[250, 254, 255, 256, 300]))
     cov = e1.explore(ctx, m, ["C13"], engine="E1s", eng=ENG)
